@@ -96,6 +96,14 @@ class ModuleInfo:
                 self.funcs[n.name] = self._func(n, self.name + '.' + n.name, None, None)
             elif isinstance(n, ast.ClassDef):
                 self.classes[n.name] = ClassInfo(self, n)
+            elif isinstance(n, ast.Try):
+                # `try: from x import y  except ImportError: ...` (optional dependency): the import is indexed, the
+                # names it may or may not bind are decided by the class-level `if` variants that test them
+                for m in n.body:
+                    if isinstance(m, ast.ImportFrom):
+                        mod = ('.' * m.level) + (m.module or '')
+                        for a in m.names:
+                            self.imports[a.asname or a.name] = (mod, a.name)
 
     def _func(self, node, qualname, cls, parent):
         fi = FuncInfo(qualname, node, self, cls, parent)
@@ -127,6 +135,8 @@ class ClassInfo:
         self.assigns = {}
         self.methods = {}
         self.attr_fields = []   # (name, default ast or None) in declaration order (attrs classes)
+        self.variants = {}
+        nif = 0
         for n in node.body:
             if isinstance(n, ast.Assign) and len(n.targets) == 1 and isinstance(n.targets[0], ast.Name):
                 nm = n.targets[0].id
@@ -151,6 +161,19 @@ class ClassInfo:
                     self.attr_fields.append((nm, dflt))
             elif isinstance(n, ast.FunctionDef):
                 self.methods[n.name] = module._func(n, module.name + '.' + node.name + '.' + n.name, node.name, None)
+            elif isinstance(n, ast.If):
+                # a method defined in both arms of a class-level `if` (chosen at import time): both variants are
+                # units (`name@if<k>` / `name@else<k>`); calls go through the common interface contract `name`
+                nif += 1
+                for arm, stmts in (('if', n.body), ('else', n.orelse)):
+                    for m in stmts:
+                        if isinstance(m, ast.FunctionDef):
+                            vn = '%s@%s%d' % (m.name, arm, nif)
+                            self.methods[vn] = module._func(m, module.name + '.' + node.name + '.' + vn, node.name, None)
+                            self.variants.setdefault(m.name, []).append(vn)
+                            if m.name not in self.methods:
+                                self.methods[m.name] = module._func(m, module.name + '.' + node.name + '.' + m.name, node.name, None)
+                                self.methods[m.name].interface_only = True
 
 
 class Repo:
